@@ -28,7 +28,7 @@ def cases(draw):
     allow = gen.FULL_EXACT - {"quadcmp"}
     m, info = draw(gen.models(max_vars=3, allow=allow, max_cons=2, max_lcons=2, with_obj=False, depth=2, budget=12))
     pick = draw(st.integers(0, 10**6))
-    damage = draw(st.sampled_from(["none", "none", "bound", "integer", "aux", "tiny-bound", "tiny-aux", "none"]))
+    damage = draw(st.sampled_from(["none", "none", "bound", "integer", "aux", "tiny-bound", "tiny-aux", "none", "subtol-aux", "subtol-aux"]))
     which = draw(st.integers(0, 10**6))
     fail = draw(st.booleans())
     mode = draw(st.sampled_from([None, None, 3, 1 + 2 + 4 + 8, 1023]))
@@ -127,8 +127,12 @@ def judge(n, info, pick, damage, which, fail, mode, res, known=()):
             x[j] = x[j] + F(1, 4) if x[j] < fm.ub[j] else x[j] - F(1, 4)
             expect = True
             applied = damage
-    elif damage in ("aux", "tiny-aux"):
-        mrg = BIG if damage == "aux" else TINY
+    elif damage in ("aux", "tiny-aux", "subtol-aux"):
+        # subtol-aux: the user raises the absolute tolerance to 1e-2 (relative 1e-6); an expression that is off by 2^-9 is then
+        # within tolerance whatever its value is - in particular when the value is 0, where the relative test does not apply
+        mrg = BIG if damage == "aux" else F(1, 512) if damage == "subtol-aux" else TINY
+        if damage == "subtol-aux" and not nlfeas:
+            damage = "none"
         # only a *used* numeric expression can be violated: its defining constraint carries a context (1 = result may not
         # exceed the value, 2 = may not fall below it, 3 = both); the damage goes in a violating direction
         ctx_of = {}
@@ -137,7 +141,10 @@ def judge(n, info, pick, damage, which, fail, mode, res, known=()):
             if c.kind == "func" and c.d.get("res_var", -1) >= norig and c.d.get("ctx", 0) in (1, 2, 3):
                 ctx_of[c.d["res_var"]] = c.d["ctx"]
         auxs = [i for i in sorted(ctx_of) if fm.type[i] != 1 and fm.lb[i] < fm.ub[i]]
-        if auxs:
+        if damage == "subtol-aux":       # prefer an expression whose value is 0
+            zero = [i for i in auxs if x[i] == 0]
+            auxs = zero or auxs
+        if auxs and damage != "none":
             i = auxs[which % len(auxs)]
             x[i] = x[i] - mrg if ctx_of[i] == 2 else x[i] + mrg
             if damage == "aux":
@@ -150,6 +157,8 @@ def judge(n, info, pick, damage, which, fail, mode, res, known=()):
         opts.append("sol:chk:mode=%d" % mode)
     if fail:
         opts.append("sol:chk:fail")
+    if applied == "subtol-aux":
+        opts += ["sol:chk:feastol=0.01", "sol:chk:feastolrel=1e-6"]
     cfg = ["primal %s" % vd.vec(x)]
     run2 = conv.convert(n, acc, opts, extra_cfg=cfg)
     if run2.sanitizer or run2.signal:
